@@ -138,7 +138,15 @@ class _StepHooks(Hooks):
                 return None
         if ftext in ("RuntimeError", "ValueError"):
             return Sym(ftext)
+        if recv == "self" and meth in getattr(self, "helpers", {}):
+            return NOTHING  # inlined (see inline())
         raise AnalysisError(f"cleaner: call not understood in the state machine: {ftext}({', '.join(vtext(a) for a in args)})")
+
+    def inline(self, call, ftext, st):
+        recv, _, meth = ftext.rpartition(".")
+        if recv == "self" and meth in getattr(self, "helpers", {}):
+            return self.helpers[meth]
+        return None
 
     def on_store(self, target_text, value, st):
         if self._is_stack(target_text):
@@ -166,6 +174,8 @@ class Extracted:
         if self.process is None:
             raise AnalysisError(f"{clsname}.process missing")
         self.loop_body, self.loop_kind = self._find_char_loop(self.process.node)
+        # small private helpers of the cleaner (predicates over its state, extracted branches) are interpreted in place
+        self.helpers = {n: f.node for n, f in self.cls.methods.items() if n not in ("process", "logical_newline", "dir_check", "__init__", "reset")}
         self.cache = {}
         self.modes_pushed = set()
         self.steps = 0
@@ -226,6 +236,7 @@ class Extracted:
                 raise AnalysisError(f"{self.cls.name}: putback loop on {char!r} in {stack}")
             c = pending.pop(0)
             h = _StepHooks(cur_stack, cur_cat, c, directives_only, cur_vc)
+            h.helpers = self.helpers
             outcome = self._run(self.loop_body, h, self.process.node)
             events += h.events
             cur_stack, cur_cat, cur_vc = h.stack, h.cat, h.vc
@@ -246,6 +257,7 @@ class Extracted:
         m = self.cls.find_method(name) if body is None else None
         stmts = m.node.body if body is None else body
         h = _StepHooks(stack, cat, None, False, vc)
+        h.helpers = self.helpers
         out = self._run(stmts, h, None)
         return tuple(h.stack), h.cat, out, tuple(h.events), tuple(h.vc)
 
@@ -474,6 +486,11 @@ class FortranExtracted(Extracted):
         if len(loops) != 1:
             raise AnalysisError("dir_check: loop over the input buffer not found")
         self.dc_loop = loops[0]
+        body_ = [s for s in self.dir_check.node.body if not (isinstance(s, ast.Expr) and isinstance(s.value, ast.Constant))]
+        if self.dc_loop.orelse or body_.index(self.dc_loop) != len(body_) - 1:
+            # the model below reads "what happens at the `$`" inside the loop; an emission moved behind the loop
+            # (for ... else, break + trailing statements) is a shape it does not interpret
+            raise AnalysisError("dir_check: statements after / else-branch of the scanning loop are not modelled")
         self.dc_pre = [s for s in self.dir_check.node.body if s is not self.dc_loop and not (isinstance(s, ast.Expr) and isinstance(s.value, ast.Constant))]
         self.dc_cache = {}
 
@@ -500,6 +517,7 @@ class FortranExtracted(Extracted):
 
         body = [ast.fix_missing_locations(T().visit(s)) for s in body]
         h = _StepHooks(["<dc>"], cat, char)
+        h.helpers = self.helpers
         found = ["!"] + ["a"] * (found_len - 1)
         orig = h.on_call
 
